@@ -617,6 +617,15 @@ func GenInput2(r *vh.Rng, v Variant) Input {
 		in = append(in, '\n')
 		kind += "+terminated"
 	}
+	// guard of the scanner theorems (known finding F23): an EDI input must not end with exactly
+	// bufio.MaxScanTokenSize undelimited bytes; the main stream stays far away from that
+	if v.FmtIdx == 2 {
+		tail := len(in) - 1 - bytes.LastIndexAny(in, "~\n")
+		if tail >= 60000 {
+			in = append(in, '~')
+			kind += "+terminated"
+		}
+	}
 	return Input{In: in, Kind: size + "/" + kind}
 }
 
